@@ -49,6 +49,10 @@ def gen(seed, tier):
             o["f"] = "+".join(str(x) for x in dfs)
         elif k == 4:
             o["f"] = str(r.choice([99, 7, 31]))
+        if i % 4 == 0:
+            # -f takes any u32: values that agree with a format only modulo 32 / 64 / 2^k, or are simply huge, list nothing
+            alias = [str(r.choice(dfs) + r.choice([32, 64, 96, 256, 65536, 2 ** 31, 2 ** 32 - 32])) for _ in range(r.randint(1, 3))]
+            o["f"] = "+".join(([o["f"]] if "f" in o and r.random() < 0.6 else []) + alias)
         if r.random() < 0.75:
             o["c"] = 1
         if r.random() < 0.5:
